@@ -267,6 +267,7 @@ def e2e(ctx: Ctx, root: Path) -> None:
             ctx.report("amend:e2e", f"with cwd {cwd.name} and --config-file {cfg} the files still reported are {sorted(os.path.relpath(x, root) for x in reported)}",
                        {"cwd": str(cwd), "argv": args, "stdout": out[-600:], "stderr": err[-600:]})
     implicit_config(ctx, root)
+    several_files_one_run(ctx, root)
 
 
 def implicit_config(ctx: Ctx, root: Path) -> None:
@@ -321,3 +322,41 @@ def implicit_config(ctx: Ctx, root: Path) -> None:
             ctx.report(f"amend:implicit:{label}", f"{label}: config file in use is {using or 'none'}; FURB123 should remain for {sorted(want)} but remains for {sorted(got)}",
                        {"cwd": os.path.relpath(cwd, proj), "configs": configs, "files": layout, "file_body": body, "argv": args, "stdout": out[-800:],
                          "rule": "amend paths resolve against the directory of the config file in use"})
+
+
+def several_files_one_run(ctx: Ctx, root: Path) -> None:
+    """What is decided for one file must not leak to its neighbours: amend entries naming a single file, a folder, and a nested
+    folder, with several files of the same folders (each reporting the same code) checked in ONE run, in every order."""
+    import itertools
+    proj = root / "together"
+    body = "x = int(0)\ny = not not x\n"
+    layout = ["src/util.py", "src/app.py", "src/views.py", "src/gen/models.py", "src/gen/extra.py", "lib/util.py", "top.py"]
+    for f in layout:
+        (proj / f).parent.mkdir(parents=True, exist_ok=True)
+        (proj / f).write_text(body)
+    configs = {
+        "one-file": ('[[tool.refurb.amend]]\npath = "src/util.py"\nignore = ["FURB123"]\n', lambda f, c: c == "FURB123" and f == "src/util.py"),
+        "file-and-folder": ('[[tool.refurb.amend]]\npath = "src/app.py"\nignore = ["FURB114"]\n[[tool.refurb.amend]]\npath = "src/gen"\nignore = ["FURB123"]\n',
+                            lambda f, c: (c == "FURB114" and f == "src/app.py") or (c == "FURB123" and f.startswith("src/gen/"))),
+        "two-files-same-folder": ('[[tool.refurb.amend]]\npath = "src/util.py"\nignore = ["FURB123"]\n[[tool.refurb.amend]]\npath = "src/views.py"\nignore = ["FURB114"]\n',
+                                  lambda f, c: (c == "FURB123" and f == "src/util.py") or (c == "FURB114" and f == "src/views.py")),
+        "category-on-one-file": ('[[tool.refurb.amend]]\npath = "lib/util.py"\nignore = ["#readability"]\n', lambda f, c: f == "lib/util.py"),
+    }
+    for cname, (tables, covered) in configs.items():
+        (proj / "pyproject.toml").write_text("[tool.refurb]\n" + tables)
+        orders = [["src"], ["."], layout, layout[::-1], ["src/util.py", "src/views.py"], ["src/views.py", "src/util.py"], ["src/app.py", "src/util.py", "src/gen/models.py"],
+                  ["lib/util.py", "src/util.py"], ["src/util.py", "lib/util.py", "top.py"]]
+        for args in orders:
+            rc, out, err = L.cli([*args, "--quiet"], cwd=str(proj))
+            got = {(os.path.normpath(l.split(":")[0]), c) for l in out.splitlines() for c in ("FURB123", "FURB114") if f"[{c}]" in l}
+            checked = set()
+            for a in args:
+                checked |= {f for f in layout if a == "." or f == a or f.startswith(a.rstrip("/") + "/")}
+            want = {(f, c) for f in checked for c in ("FURB123", "FURB114") if not covered(f, c)}
+            ctx.case(("several-files", cname, tuple(args)), nontrivial=True)
+            ctx.count("cli-several-files-one-run")
+            if not L.clean_verdict(rc, out, err) or got != want:
+                ctx.report(f"amend:several-files:{cname}", f"amend tables `{cname}`, files {args} checked in one run: wrongly silenced {sorted(want - got)[:4]}, wrongly reported {sorted(got - want)[:4]}",
+                           {"pyproject.toml": "[tool.refurb]\n" + tables, "argv": [*args, "--quiet"], "cwd": "the project root", "file_body": body, "layout": layout,
+                            "silenced_but_not_covered": sorted(want - got), "reported_although_covered": sorted(got - want), "stdout": out[-600:]})
+                break
